@@ -92,6 +92,16 @@ try:
     show("F-C17-3", False, "get_value(x); push() ok")
 except Exception as e:
     show("F-C17-3", True, "get_value(x); push() -> %s: %s" % (type(e).__name__, e))
+# F-C08-3 (known finding): a quoted symbol spelled like a literal shadows the literal
+sc_ = SmtLibParser().get_script(StringIO("(declare-fun x () Int)(declare-fun |2| () Int)(assert (= x (+ 1 2)))"))
+fl = sc_.get_last_formula()
+show("F-C08-3", len(fl.get_free_variables()) == 2, "(assert (= x (+ 1 2))) after (declare-fun |2| () Int) read as %s over %s"
+     % (fl.serialize(), sorted(v.symbol_name() for v in fl.get_free_variables())))
+# F-C07-3 (fixed 3766739): parametric sort declared once per instance
+from pysmt.typing import Type, BOOL as _B
+_P = Type("Pair", 1)
+t = export(And(Equals(Symbol("pa", _P(INT)), Symbol("pc", _P(INT))), Equals(Symbol("pb", _P(_B)), Symbol("pd", _P(_B)))))
+show("F-C07-3", t.count("(declare-sort Pair 1)") != 1, "declare-sort Pair written %d time(s)" % t.count("(declare-sort Pair 1)"))
 # F-C18-2 (known finding): MaxSMT with the binary strategy diverges (needs z3)
 from pysmt.shortcuts import Optimizer
 from pysmt.optimization.goal import MaxSMTGoal
